@@ -5,7 +5,7 @@ EXTENDS Fetcher, TLC, Json, IOUtils
 
 Trace == ndJsonDeserialize(IOEnv.TRACE)
 VARIABLES l
-tvars == <<l, arrive, forget, ann, reqs, reported, stops, interested, unint, susp, unsusp>>
+tvars == <<l, arrive, forget, ann, reqs, reported, stops, rcv, nint, interested, unint, susp, unsusp>>
 T == Trace[l]
 Is(op) == l <= Len(Trace) /\ T.op = op /\ l' = l + 1
 
